@@ -611,5 +611,5 @@ ASSUMPTIONS = ['"accepted" = no exception escaped eat_chunk and safety_check() r
                'detection (InspectWrapper) is an input of the command-line model: exit status is a function of (path ok, detection outcome, safety_check outcome, virtual_size outcome, -v)',
                'VHDX: state level only (null check: Pass <-> complete and match in every reachable state); byte level for all chunkings for the eight static formats and for sparse VMDK outside the zones F1 (no valid sparse header) and F3 (footer announced, stream shorter than 63+1536 bytes)']
 LEVEL_TEXT = ('safety_check() gate proved for every format and state; Pass characterised on the bytes for all chunkings (qcow2, luks, gpt/mbr, qed, vhd, vdi, iso, raw, '
-              'and sparse VMDK: both directions, frozen inspectors included); vhdx at state level; cli.main translated statement by statement and exit status 0 characterised; F1 refuted by witness.')
-LEVEL_NOTE = 'VHDX byte-level statements need the refinement of the VHDX run (C01); VMDK text-descriptor mode is finding F1; see notes/C02.md'
+              'and sparse VMDK: both directions, frozen inspectors included; VHDX through the C01 refinement outside its zones, with finding F7 stated as a theorem); every check_* function, SafetyCheck.__call__ and safety_check translated statement by statement and proved equal to the model (12 equivalence lemmas); cli.main translated and exit status 0 characterised; F1 refuted by witness.')
+LEVEL_NOTE = 'Byte-level VHDX/VMDK statements rest on the C01 refinement theorems (zones F1-F4); VMDK text-descriptor mode is finding F1, footer/createType/frozen-VHDX acceptance are findings F5-F7; see notes/C02.md'
